@@ -166,6 +166,8 @@ class XorEncodedFile(io.RawIOBase):
         return self.fh.seek(offset, whence)
 
     def read(self, n=-1):
+        if n == 0:
+            return b""
         data = b""
         nonce = self.read_nonce()
         while True:
@@ -179,7 +181,11 @@ class XorEncodedFile(io.RawIOBase):
                 break
         if n == -1:
             n = None
-        return data[:n]
+        result = data[:n]
+        if len(result) != len(data):
+            # data is decoded in chunks of 4 bytes, move back to the position right after the returned bytes
+            self.fh.seek(len(result) - len(data), io.SEEK_CUR)
+        return result
 
 
 @catch_sigpipe
